@@ -91,10 +91,11 @@ class ClosureTableCost(BaseCost):
     The table depends on (seed, n, column) only, not on the data values.
     """
 
-    def __init__(self, seed=0, maxinc=3, zero_prob=0.5, param=None):
+    def __init__(self, seed=0, maxinc=3, zero_prob=0.5, param=None, offset=0):
         self.seed = seed
         self.maxinc = maxinc
         self.zero_prob = zero_prob
+        self.offset = offset  # subtracting offset*(e-s) keeps the split inequality, makes costs negative
         super().__init__(param)
 
     def _fit(self, X, y=None):
@@ -109,7 +110,8 @@ class ClosureTableCost(BaseCost):
         return self
 
     def _evaluate_optim_param(self, starts, ends):
-        return np.column_stack([T[starts, ends] for T in self.tables_]).astype(float)
+        vals = np.column_stack([T[starts, ends] for T in self.tables_]).astype(float)
+        return vals - self.offset * (ends - starts).reshape(-1, 1)
 
 
 def _closure_saving_table(n, rng, maxval, zero_prob):
@@ -170,10 +172,13 @@ def _hash_vals(seed, cols, modulus):
 class HashChangeScore(BaseChangeScore):
     """Arbitrary integer-valued change score: a seeded hash of (start, split, end, column)."""
 
-    def __init__(self, seed=0, modulus=7, minsize=1):
+    def __init__(self, seed=0, modulus=7, minsize=1, multivariate=False):
         self.seed = seed
         self.modulus = modulus
         self.minsize = minsize
+        self.multivariate = multivariate
+        # an inherently multivariate score returns ONE column whatever the number of variables
+        self.evaluation_type = "multivariate" if multivariate else "univariate"
         super().__init__()
 
     @property
@@ -181,7 +186,7 @@ class HashChangeScore(BaseChangeScore):
         return self.minsize
 
     def _fit(self, X, y=None):
-        self.p_ = as_2d_array(X).shape[1]
+        self.p_ = 1 if self.multivariate else as_2d_array(X).shape[1]
         return self
 
     def _evaluate(self, cuts):
@@ -194,13 +199,15 @@ class HashChangeScore(BaseChangeScore):
 class HashLocalAnomalyScore(BaseLocalAnomalyScore):
     """Arbitrary integer-valued local anomaly score: seeded hash of the 4-point cut."""
 
-    def __init__(self, seed=0, modulus=7):
+    def __init__(self, seed=0, modulus=7, multivariate=False):
         self.seed = seed
         self.modulus = modulus
+        self.multivariate = multivariate
+        self.evaluation_type = "multivariate" if multivariate else "univariate"
         super().__init__()
 
     def _fit(self, X, y=None):
-        self.p_ = as_2d_array(X).shape[1]
+        self.p_ = 1 if self.multivariate else as_2d_array(X).shape[1]
         return self
 
     def _evaluate(self, cuts):
